@@ -65,7 +65,8 @@ def decodeUpdate (old : Option PodObj) (new : PodObj) : List MOp :=
 /-- one informer notification. -/
 inductive Event where
   | podAdd (new : PodObj)                 -- OnAdd                      = updatePod(nil, new)
-  | podUpdate (old new : PodObj)          -- OnUpdate                   = updatePod(old, new)
+  | podUpdate (old new : PodObj)          -- OnUpdate                   = updatePod(old, new); with a changed UID:
+                                          --                              deletePod(old) then updatePod(nil, new)
   | podDelete (obj : PodObj)              -- OnDelete, plain or tombstone = deletePod(obj)
   | topo (node : Nat) (valid : Bool)      -- NodeResourceTopology add / update / delete: the stored topology is (in)valid now
   | other                                 -- an object of another type: every handler returns at its type assertion
@@ -73,7 +74,7 @@ deriving Repr
 
 def decode : Event → List MOp
   | .podAdd n => decodeUpdate none n
-  | .podUpdate o n => decodeUpdate (some o) n
+  | .podUpdate o n => if o.uid ≠ n.uid then decodeDelete o ++ decodeUpdate none n else decodeUpdate (some o) n
   | .podDelete o => decodeDelete o
   | .topo _ _ => []
   | .other => []
